@@ -100,6 +100,42 @@ pub fn priv_from_seed(dh: DhKind, seed: u64, label: u64) -> [u8; 32] {
     k
 }
 
+/// Key seeds with seed % 32 == 5 use a pre-computed pair (golden/shaped_dh.json) whose DH output has
+/// leading or trailing zero bytes (a 2^-8 .. 2^-16 event for random keys): the initiator's static
+/// AND ephemeral key are `a`, the responder's are `b`, so every DH token of the session (ee, es,
+/// se, ss) yields that shaped value.
+pub fn golden_shaped(dh: DhKind, seed: u64, initiator: bool) -> Option<[u8; 32]> {
+    use std::sync::OnceLock;
+    if seed % 32 != 5 {
+        return None;
+    }
+    static PAIRS: OnceLock<Vec<(String, [u8; 32], [u8; 32])>> = OnceLock::new();
+    let pairs = PAIRS.get_or_init(|| {
+        let dir = std::env::var("VERIF_DIR").unwrap_or_else(|_| "/verif".to_string());
+        let txt = std::fs::read_to_string(std::path::Path::new(&dir).join("golden").join("shaped_dh.json")).unwrap_or_else(|_| "[]".into());
+        let v: serde_json::Value = serde_json::from_str(&txt).unwrap_or(serde_json::json!([]));
+        let mut out = Vec::new();
+        for e in v.as_array().cloned().unwrap_or_default() {
+            let (Some(d), Some(a), Some(b)) = (e["dh"].as_str(), e["a"].as_str(), e["b"].as_str()) else { continue };
+            let (Ok(a), Ok(b)) = (hex::decode(a), hex::decode(b)) else { continue };
+            if a.len() == 32 && b.len() == 32 {
+                let mut ka = [0u8; 32];
+                let mut kb = [0u8; 32];
+                ka.copy_from_slice(&a);
+                kb.copy_from_slice(&b);
+                out.push((d.to_string(), ka, kb));
+            }
+        }
+        out
+    });
+    let mine: Vec<&(String, [u8; 32], [u8; 32])> = pairs.iter().filter(|p| p.0 == dh.name()).collect();
+    if mine.is_empty() {
+        return None;
+    }
+    let p = mine[((seed / 32) % mine.len() as u64) as usize];
+    Some(if initiator { p.1 } else { p.2 })
+}
+
 /// Like `priv_from_seed`, but a quarter of all key seeds ask for public keys of a rare shape:
 /// seed % 8 == 7 -> the public key ENDS in a zero byte; seed % 8 == 6 -> the first coordinate
 /// byte is zero (byte 0 for X25519, byte 1 for the SEC1 encoding of P-256). Keys that live in
@@ -204,9 +240,15 @@ impl SessionSpec {
         }
     }
     pub fn s_priv(&self, initiator: bool) -> [u8; 32] {
+        if let Some(k) = golden_shaped(self.suite.dh, self.key_seed, initiator) {
+            return k;
+        }
         shaped_priv(self.suite.dh, self.key_seed, if initiator { 1 } else { 2 })
     }
     pub fn e_priv(&self, initiator: bool) -> [u8; 32] {
+        if let Some(k) = golden_shaped(self.suite.dh, self.key_seed, initiator) {
+            return k;
+        }
         shaped_priv(self.suite.dh, self.key_seed, if initiator { 3 } else { 4 })
     }
     pub fn s_pub(&self, initiator: bool) -> Vec<u8> {
